@@ -45,6 +45,17 @@ import (
 // ErrEndpointFailed instead); every transport is closed exactly once by the end; a kernel tuple is present
 // while an ALIVE endpoint tracks it and absent once all endpoints that tracked it are closed; drain tickets
 // of every generation return to 0; no thread is left blocked.
+//
+// Kernel-delete faults (scenarios with kdelChoices > 1): every call of the tuple owner's ReleaseUdpConnStateTuples
+// picks the answer of the kernel map for that call: 0 = healthy, 1 = the map handle is unusable while the call
+// runs (the bpf objects' ConnStateMap is a closed duplicate of the kernel map, so the REAL BpfMapBatchDelete gets
+// EBADF from the REAL syscall), 2 / 3 = the forward / reverse entries of the released tuples were already evicted
+// from the kernel map (by the kernel program or the stale-entry sweep) when the call starts. A failed delete
+// cannot remove the entry, so "absent once every owner is closed" is suspended for exactly the tuples of a
+// release call that RETURNED an error, until the tuple is registered again; every other rule stays in force:
+// the failing Close still closes its transport once and returns its drain ticket, nobody is left blocked (a later
+// endpoint registering the same tuple must get through), and the next last-owner release under a healthy map
+// removes the entry. An evicted entry is exempt from "present while an alive owner tracks it" until registered again.
 
 const (
 	epDialOK = iota
@@ -137,7 +148,26 @@ func (b *epBpfKernel) bpfMap() *ebpf.Map { return b.m }
 var (
 	epKernelOnce sync.Once
 	epKernelMap  *ebpf.Map
+	epKernelDead *ebpf.Map // a closed duplicate handle of epKernelMap: every syscall through it fails with EBADF
 )
+
+const (
+	epKdelOK = iota
+	epKdelBadHandle
+	epKdelForwardEvicted
+	epKdelReverseEvicted
+)
+
+// epKdelN: size of the kernel-answer menu of the kdel scenarios (VERIF_C13_KDEL overrides, for experiments).
+var epKdelN = func() int {
+	switch os.Getenv("VERIF_C13_KDEL") {
+	case "2":
+		return 2
+	case "4":
+		return 4
+	}
+	return 2
+}()
 
 // epNewKernel returns the process-wide private BPF hash map (emptied) or, when the sandbox cannot create one
 // (or VERIF_C13_GOSET=1), a Go set.
@@ -150,6 +180,10 @@ func epNewKernel() epKernelSet {
 			KeySize: uint32(unsafe.Sizeof(bpfTuplesKey{})), ValueSize: 8, MaxEntries: 64})
 		if err == nil {
 			epKernelMap = m
+			if d, err := m.Clone(); err == nil {
+				_ = d.Close()
+				epKernelDead = d
+			}
 		}
 	})
 	if epKernelMap == nil {
@@ -211,17 +245,49 @@ func (w *epOwner) TransferRetainedUdpConnStateTuplesFrom(previous udpConnStateOw
 }
 
 func (w *epOwner) ReleaseUdpConnStateTuples(keys []bpfTuplesKey) error {
-	if w.o.kern.bpfMap() != nil {
-		return w.core.ReleaseUdpConnStateTuples(keys) // the real path down to BpfMapBatchDelete
+	o := w.o
+	fault := epKdelOK
+	if o.sc.kdelChoices > 1 {
+		fault = vsched.Choose(o.sc.kdelChoices, "kdel")
 	}
-	// no BPF in this sandbox: the same three steps with the Go set in place of the kernel map
-	tr := w.core.getUdpConnStateTracker()
-	rel := tr.BeginRelease(keys)
-	defer tr.FinalizeRelease(rel)
-	for _, r := range rel {
-		w.o.kern.del(r.key)
+	if fault == epKdelForwardEvicted || fault == epKdelReverseEvicted {
+		for _, k := range keys {
+			if epTupleForward(k) == (fault == epKdelForwardEvicted) && o.kern.has(k) {
+				o.kern.del(k)
+				o.kevicted[k] = true
+				o.nEvicted++
+			}
+		}
 	}
-	return nil
+	var err error
+	if o.kern.bpfMap() != nil {
+		// the real path down to BpfMapBatchDelete and the bpf(2) syscall
+		b := w.core.bpf.Load()
+		if fault == epKdelBadHandle && b != nil && epKernelDead != nil {
+			o.kbroken[b]++
+			b.ConnStateMap = epKernelDead
+		}
+		err = w.core.ReleaseUdpConnStateTuples(keys)
+		if fault == epKdelBadHandle && b != nil && epKernelDead != nil {
+			if o.kbroken[b]--; o.kbroken[b] == 0 {
+				b.ConnStateMap = o.kern.bpfMap()
+			}
+		}
+	} else {
+		// no BPF in this sandbox: the same three steps with the Go set in place of the kernel map
+		tr := w.core.getUdpConnStateTracker()
+		rel := tr.BeginRelease(keys)
+		if fault == epKdelBadHandle && len(rel) > 0 {
+			err = errors.New("fake kernel: bad file descriptor")
+		} else {
+			for _, r := range rel {
+				w.o.kern.del(r.key)
+			}
+		}
+		tr.FinalizeRelease(rel)
+	}
+	o.onRelease(keys, err)
+	return err
 }
 
 type epGen struct {
@@ -402,6 +468,7 @@ type epSpec struct {
 	after        []epOp
 	dialChoices  int
 	writeChoices int
+	kdelChoices  int // answers of the kernel map per tuple release: ok / handle unusable / forward evicted / reverse evicted
 	nat          time.Duration
 	distinctBpf  bool // generation 1 has its own bpf objects (own tracker) over the same kernel map
 	janitor      bool // keep the pool's janitor running (else it is stopped right after construction)
@@ -432,6 +499,12 @@ type epObs struct {
 
 	resetting, invalidating int
 	forcedDead              bool
+
+	kbroken     map[*bpfObjects]int   // release calls in flight that see an unusable kernel map handle
+	kdelFailed  map[bpfTuplesKey]bool // the last release call covering the tuple returned a kernel-delete error
+	kevicted    map[bpfTuplesKey]bool // the environment evicted the entry; not registered again since
+	nKdelFailed int
+	nEvicted    int
 
 	joined   int
 	gated    bool
@@ -476,7 +549,8 @@ func epQuietLogger() *logrus.Logger {
 }
 
 func newEpObs(sc *epSpec) *epObs {
-	o := &epObs{sc: sc, shared: map[int]*UdpEndpoint{}, tracking: map[int]*epConn{}, tuples: map[bpfTuplesKey][]*epConn{}}
+	o := &epObs{sc: sc, shared: map[int]*UdpEndpoint{}, tracking: map[int]*epConn{}, tuples: map[bpfTuplesKey][]*epConn{},
+		kbroken: map[*bpfObjects]int{}, kdelFailed: map[bpfTuplesKey]bool{}, kevicted: map[bpfTuplesKey]bool{}}
 	// package globals touched by the code under test
 	sharedUdpConnStateTrackerRegistry.entries = make(map[*bpfObjects]*sharedUdpConnStateTrackerEntry)
 	o.kern = epNewKernel()
@@ -545,11 +619,38 @@ func (o *epObs) onRetain(keys []bpfTuplesKey) {
 	c := o.tracking[vsched.ThreadID()]
 	for _, k := range keys {
 		o.kern.add(k)
+		delete(o.kdelFailed, k)
+		delete(o.kevicted, k)
 		if c != nil {
 			o.tuples[k] = append(o.tuples[k], c)
 			c.retained = true
 		}
 	}
+}
+
+// onRelease: the outcome of the most recent release call covering a tuple. Only a call that returned a
+// kernel-delete error excuses the entry from being absent afterwards.
+func (o *epObs) onRelease(keys []bpfTuplesKey, err error) {
+	if err != nil {
+		o.nKdelFailed++
+	}
+	for _, k := range keys {
+		if err != nil {
+			o.kdelFailed[k] = true
+		} else {
+			delete(o.kdelFailed, k)
+		}
+	}
+}
+
+// epTupleForward: the client-source -> destination direction of a tracked pair.
+func epTupleForward(k bpfTuplesKey) bool {
+	for _, key := range []int{1, 3} {
+		if k == epTuplePair(epKeys[key].Src, epDst)[0] {
+			return true
+		}
+	}
+	return false
 }
 
 // checkTuples: a kernel tuple is present while an ALIVE endpoint tracks it and absent once every endpoint that
@@ -569,11 +670,19 @@ func (o *epObs) checkTuples(where string) {
 				allClosed = false
 			}
 		}
+		// an endpoint whose Track call is still running registers its pair key by key: a key it has already
+		// registered is legitimately present although the harness learns of the new owner only when the call returns
+		registering := false
+		for _, c := range o.tracking {
+			if p := epTuplePair(epKeys[c.key].Src, epDst); (k == p[0] || k == p[1]) && c.closed == 0 {
+				registering = true
+			}
+		}
 		present := o.kern.has(k)
-		if anyAlive && !present {
+		if anyAlive && !present && !o.kevicted[k] {
 			o.fail(fmt.Sprintf("kernel tuple %s removed while an endpoint tracking it is alive (%s)", epTupleName(k), where), o.ownersOf(k))
 		}
-		if allClosed && present {
+		if allClosed && present && !o.kdelFailed[k] && !registering {
 			o.fail(fmt.Sprintf("kernel tuple %s still present after every endpoint tracking it was closed (%s)", epTupleName(k), where), o.ownersOf(k))
 		}
 	}
@@ -952,7 +1061,7 @@ func epScenario(sc *epSpec) *vsched.Scenario {
 			return "threads left blocked after the pool was closed: " + strings.Join(r.Blocked, "; "), o.log
 		}
 		for _, k := range epAllTuples() {
-			if len(o.tuples[k]) > 0 && o.kern.has(k) {
+			if len(o.tuples[k]) > 0 && o.kern.has(k) && !o.kdelFailed[k] {
 				return fmt.Sprintf("kernel tuple %s left behind after every endpoint was closed", epTupleName(k)), map[string]any{"owners": o.ownersOf(k), "log": o.log}
 			}
 		}
@@ -975,6 +1084,9 @@ func epScenario(sc *epSpec) *vsched.Scenario {
 		}
 		for _, c := range o.conns {
 			fmt.Fprintf(&sb, "|%s:c%d,w%d,h%d", c.name(), c.closed, c.wOK, c.handled)
+		}
+		if o.sc.kdelChoices > 1 {
+			fmt.Fprintf(&sb, "|kdelfail=%d,evicted=%d", o.nKdelFailed, o.nEvicted)
 		}
 		fmt.Fprintf(&sb, "|now=%dms", (r.Now-1_700_000_000_000_000_000)/1e6)
 		return sb.String()
@@ -1065,6 +1177,26 @@ func VerifEndpointPoolScenarios() []*vsched.Scenario {
 			setup:   []epOp{epGoc(1, 0), epCloseCore(0), epTrack(1), epGoc(2, 1), epTrack(2)},
 			threads: [][]epOp{{epRemove(2)}, {epGoc(1, 1)}},
 			after:   []epOp{epRemove(1)}},
+		// (4) the kernel map answers every tuple release (kdelChoices): a failed kernel delete must not wedge the tuple
+		// for the next endpoint of the same client 4-tuple, must not keep the transport or the drain ticket, and the
+		// next healthy last-owner release removes the entry. One scenario per way an endpoint is closed.
+		// Remove; K2 (destination-bound key of the same source) registers the same pair concurrently
+		{name: "ep-kdel-remove-vs-track", kdelChoices: epKdelN,
+			setup:   []epOp{epGoc(1, 0), epTrack(1), epGoc(2, 0)},
+			threads: [][]epOp{{epRemove(1)}, {epTrack(2)}}},
+		// reply-loop exit (retire from the endpoint's own reader), then Reset
+		{name: "ep-kdel-readerr-reset", kdelChoices: epKdelN,
+			setup:   []epOp{epGoc(1, 0), epTrack(1)},
+			threads: [][]epOp{{epReadErr(1)}, {epGoc(1, 0), epTrack(1)}},
+			after:   []epOp{epGoc(1, 0), epTrack(1), epReset, epGoc(1, 0), epTrack(1)}},
+		// NAT expiry: the closer is the pool's only janitor thread
+		{name: "ep-kdel-janitor", kdelChoices: epKdelN, nat: 300 * time.Millisecond, janitor: true,
+			setup:   []epOp{epGoc(1, 0), epTrack(1)},
+			threads: [][]epOp{{epSleep(600 * time.Millisecond), epGoc(1, 0), epTrack(1)}}},
+		// after a reload hand-over (distinct trackers): the adopting generation's release fails
+		{name: "ep-kdel-adopt", kdelChoices: epKdelN, distinctBpf: true,
+			setup:   []epOp{epGoc(1, 0), epTrack(1), epGoc(2, 1)},
+			threads: [][]epOp{{epGoc(1, 1), epRemove(1)}, {epTrack(2)}}},
 	}
 	var out []*vsched.Scenario
 	for _, sc := range specs {
@@ -1121,14 +1253,15 @@ func VerifEndpointPoolQuickScenarios() []*vsched.Scenario {
 		return out
 	}
 	out := []*vsched.Scenario{
-		by["ep-3goc-dial"], by["ep-2goc-seq-dial"], by["ep-goc-vs-janitor"],
+		by["ep-3goc-dial"], by["ep-2goc-seq-dial"], by["ep-goc-vs-janitor"], by["ep-kdel-readerr-reset"], by["ep-kdel-janitor"],
 	}
-	pick("ep-3goc-dial", "ep-2goc-seq-dial", "ep-goc-vs-janitor")
+	pick("ep-3goc-dial", "ep-2goc-seq-dial", "ep-goc-vs-janitor", "ep-kdel-readerr-reset", "ep-kdel-janitor")
 	out = append(out,
 		epGroup("epq-depth2", pick("ep-goc-vs-readerr", "ep-goc-vs-invalidate-used", "ep-goc-vs-reset", "ep-goc-vs-close",
 			"ep-goc-vs-remove", "ep-stale-remove-seq", "ep-adopt-shared-tuple", "ep-adopt-vs-readerr", "ep-adopt-distinct-tracker",
 			"ep-closed-gen-shared-tuple", "ep-closed-gen-late-track")),
 		epGroup("epq-depth1", pick("ep-goc-vs-writeerr", "ep-goc-vs-invalidate-fresh", "ep-create-vs-invalidate", "ep-stale-remove-race")),
+		epGroup("epq-kdel", pick("ep-kdel-remove-vs-track", "ep-kdel-adopt")),
 	)
 	if len(by) != 0 {
 		panic(fmt.Sprintf("C13 harness: %d scenario(s) not placed in a quick group", len(by)))
